@@ -1,4 +1,4 @@
-package main
+package c09
 
 import (
 	"bytes"
@@ -14,12 +14,12 @@ import (
 	"hx/lib"
 )
 
-func init() { runners["C09"] = runC09 }
+func init() { lib.Register("C09", runC09) }
 
 // fmtRulesLine dumps spaceAfterToken over its whole finite domain (subject type x is-keyword-in x
 // before type x after type) and tokenBracketChange, from the compiled code, as the model's RULES line.
 func fmtRulesLine() (string, []hclsyntax.TokenType, error) {
-	tys, _, err := tokenTypesFromSource()
+	tys, _, err := lib.TokenTypesFromSource()
 	if err != nil {
 		return "", nil, err
 	}
@@ -70,53 +70,9 @@ func encodeFmtToks(toks hclwrite.Tokens) string {
 	return sb.String()
 }
 
-type tb struct {
-	T hclsyntax.TokenType
-	B string
-}
-
-func lexSeq(src []byte) []tb {
-	toks, _ := hclsyntax.LexConfig(src, "", hcl.InitialPos)
-	out := make([]tb, len(toks))
-	for i, t := range toks {
-		out[i] = tb{t.Type, string(t.Bytes)}
-	}
-	return out
-}
-
-func tyName(t hclsyntax.TokenType) string { return strings.TrimPrefix(t.String(), "Token") }
-
-// diffKey names the token types around the first difference of two token sequences.
-func diffKey(a, b []tb) (string, bool) {
-	n := len(a)
-	if len(b) < n {
-		n = len(b)
-	}
-	at := -1
-	for i := 0; i < n; i++ {
-		if a[i] != b[i] {
-			at = i
-			break
-		}
-	}
-	if at < 0 {
-		if len(a) == len(b) {
-			return "", false
-		}
-		at = n
-	}
-	var parts []string
-	for i := at; i <= at+2; i++ {
-		if i >= 0 && i < len(a) {
-			parts = append(parts, tyName(a[i].T))
-		}
-	}
-	return strings.Join(parts, ","), true
-}
-
 // c09Oracle checks the property on the real formatter for one error-free source. It returns whether
 // the case was non-trivial (formatting changed the text).
-func c09Oracle(cx *Ctx, src []byte, origin string) bool {
+func c09Oracle(cx *lib.Ctx, src []byte, origin string) bool {
 	f, diags := hclsyntax.ParseConfig(src, "", hcl.InitialPos)
 	if diags.HasErrors() {
 		cx.Res.Count("oracle-skip-invalid")
@@ -126,7 +82,7 @@ func c09Oracle(cx *Ctx, src []byte, origin string) bool {
 	cx.Guard("format", string(src), func() {
 		out := hclwrite.Format(src)
 		nontrivial = !bytes.Equal(out, src)
-		if k, differ := diffKey(lexSeq(src), lexSeq(out)); differ {
+		if k, differ := lib.DiffKey(lib.LexSeq(src), lib.LexSeq(out)); differ {
 			cx.Res.Fail(lib.Failure{Kind: "oracle", Key: "tokens-changed:" + k, Desc: "formatting changed the token sequence (" + origin + ")", Input: string(src), Impl: string(out)})
 			return
 		}
@@ -148,7 +104,7 @@ func c09Oracle(cx *Ctx, src []byte, origin string) bool {
 }
 
 // c09Corr compares the real in-place formatter with the model on the real token stream of src.
-func c09Corr(cx *Ctx, src []byte) {
+func c09Corr(cx *lib.Ctx, src []byte) {
 	if !cx.HasModel() {
 		return
 	}
@@ -170,59 +126,6 @@ func c09Corr(cx *Ctx, src []byte) {
 	}
 }
 
-// RenderChecked renders layout tokens under a random layout and makes sure (with the real lexer) that
-// the layout did not merge or split tokens; otherwise it falls back to safer spacing.
-func RenderChecked(toks []lib.Tk, lay *lib.Layout) string {
-	canon := (&lib.Layout{}).Render(toks, true)
-	want := sigSeq([]byte(canon))
-	for _, force := range []bool{false, true} {
-		s := lay.Render(toks, force)
-		if sigSeq([]byte(s)) == want {
-			return s
-		}
-	}
-	return canon
-}
-
-// sigSeq is the token sequence ignoring newlines and comments.
-func sigSeq(src []byte) string {
-	var sb strings.Builder
-	toks, _ := hclsyntax.LexConfig(src, "", hcl.InitialPos)
-	for _, t := range toks {
-		if t.Type == hclsyntax.TokenNewline || t.Type == hclsyntax.TokenComment {
-			continue
-		}
-		fmt.Fprintf(&sb, "%c%x|", rune(t.Type), t.Bytes)
-	}
-	return sb.String()
-}
-
-func randomLayout(r *lib.Rand) *lib.Layout {
-	return &lib.Layout{R: r, CRLF: r.Chance(1, 8), Comments: r.Chance(1, 2), Tabs: r.Chance(1, 4)}
-}
-
-func mutateBytes(r *lib.Rand, src []byte) []byte {
-	out := append([]byte{}, src...)
-	frag := []string{"{", "}", "[", "]", "(", ")", "\"", "${", "%{", "<<EOT\n", "EOT\n", "=", "\n", "#", "/*", "*/", ".", ",", "-", " ", "\xff", "\x00", "for", "in", "if", "?", ":", "=>", "...", "~}"}
-	for k := 1 + r.Intn(3); k > 0; k-- {
-		if len(out) == 0 {
-			break
-		}
-		p := r.Intn(len(out))
-		switch r.Intn(3) {
-		case 0:
-			out = append(out[:p], out[p+1:]...)
-		case 1:
-			f := frag[r.Intn(len(frag))]
-			out = append(out[:p], append([]byte(f), out[p:]...)...)
-		default:
-			f := frag[r.Intn(len(frag))]
-			out = append(out[:p], append([]byte(f), out[p+1:]...)...)
-		}
-	}
-	return out
-}
-
 // handCorpusC09 are sources kept because they once exposed a problem or exercise a rule.
 var handCorpusC09 = []string{
 	"x = a.0 .5\n",
@@ -241,10 +144,10 @@ var handCorpusC09 = []string{
 	"x = ! a && ! ( b )\n",
 }
 
-func runC09(cx *Ctx) {
+func runC09(cx *lib.Ctx) {
 	res := cx.Res
 	if cx.Replay != "" {
-		src := replayInput(cx.Replay)
+		src := lib.ReplayInput(cx.Replay)
 		c09Oracle(cx, []byte(src), "replay")
 		res.Case(src, true)
 		res.Sample(src)
@@ -276,7 +179,7 @@ func runC09(cx *Ctx) {
 		rd := &lib.Renderer{R: r, ExtraParen: 5}
 		var toks []lib.Tk
 		rd.BodyTokens(&toks, body)
-		src := RenderChecked(toks, randomLayout(r))
+		src := lib.RenderChecked(toks, lib.RandomLayout(r))
 		if r.Chance(1, 10) {
 			src = strings.TrimRight(src, "\r\n")
 		}
@@ -287,7 +190,7 @@ func runC09(cx *Ctx) {
 			res.Sample(src)
 		}
 		if r.Chance(1, 3) {
-			m := mutateBytes(r, []byte(src))
+			m := lib.MutateBytes(r, []byte(src))
 			c09Corr(cx, m)
 			c09Oracle(cx, m, "mutated")
 			res.Count("mutated")
@@ -298,7 +201,7 @@ func runC09(cx *Ctx) {
 
 // c09Windows enumerates short windows of representative tokens, embeds each in several expression
 // contexts with single spaces (so that it lexes as intended), and runs the oracle on those that parse.
-func c09Windows(cx *Ctx) {
+func c09Windows(cx *lib.Ctx) {
 	reps := []string{"a", "in", "x-y", "e5", "0", "5", "1.5", "1e5", ".", "-", "!", "+", "*", "/", "%", "==", "!=", "<", "<=", ">", ">=", "&&", "||", "?", ":", ",", "(", ")", "[", "]", "{", "}", "=", "=>", "...", "::", "\"s\"", "\"${a}\"", "null", "for", "if"}
 	ctxs := [][2]string{{"x = ", "\n"}, {"x = a", "\n"}, {"x = a.", "\n"}, {"x = f(", ")\n"}, {"x = [", "]\n"}, {"x = {a = ", "}\n"}, {"x = a ? ", " : c\n"}, {"x = [for v in ", " : v]\n"}, {"x = \"${", "}\"\n"}}
 	k := 3
